@@ -57,6 +57,14 @@ fn shape_set(v: usize, k: i64) -> Vec<SShape> {
         2 => vec![s(0, 0, SGeom::Rect((10, 5), (40, 25)), None)],
         3 => vec![s(1, 1, SGeom::Rect((40, 25), (10, 5)), Some("Rev")), s(1, 1, SGeom::Poly(l_shape((0, 100))), None), s(1, 1, SGeom::Path(vec![(0, 200), (40, 200)], 2), Some("Rev"))],
         4 => vec![s(0, 1, SGeom::Poly(vec![(0, 0), (0, 50), (20, 50), (20, 20), (60, 20), (60, 0)]), Some("cw")), s(0, 0, SGeom::Rect((-40, -25), (-10, -5)), Some("neg"))],
+        // the third technology layer: purposes numbered 256, 300 and -5 next to drawing (20)
+        7 => vec![
+            s(2, 0, SGeom::Rect((0, 0), (10, 10)), Some("d20")),
+            s(2, 1, SGeom::Rect((20, 0), (30, 10)), None),
+            s(2, 2, SGeom::Poly(l_shape((40, 0))), Some("p300")),
+            s(2, 3, SGeom::Path(vec![(0, 100), (50, 100)], 4), None),
+            s(0, 0, SGeom::Rect((100, 0), (110, 10)), None),
+        ],
         // polygons of exactly four vertices: an axis-parallel rectangle listed counter-clockwise and clockwise (they
         // stay polygons), a parallelogram, a right trapezoid
         6 => vec![
@@ -142,8 +150,8 @@ fn gen(four: bool, c: &mut Chooser) -> Case {
                 let first = lay.insts[0].clone();
                 lay.insts.push(SInst { name: "again".into(), loc: (first.loc.0 + 1, first.loc.1 + 1), reflect: false, angle: Some(0.0), ..first });
             }
-            let sv = c.cost(7, "shape-set");
-            tags.push(["shapes:interleaved-all-kinds", "shapes:none", "shapes:single-rect", "shapes:one-layer-purpose", "shapes:cw-polygon+negative-rect", "shapes:rects-by-every-corner-pair", "shapes:four-vertex-polygons"][sv]);
+            let sv = c.cost(8, "shape-set");
+            tags.push(["shapes:interleaved-all-kinds", "shapes:none", "shapes:single-rect", "shapes:one-layer-purpose", "shapes:cw-polygon+negative-rect", "shapes:rects-by-every-corner-pair", "shapes:four-vertex-polygons", "shapes:unusual-purpose-numbers"][sv]);
             lay.shapes = shape_set(sv, i as i64);
             let an = c.cost(3, "annotations");
             tags.push(["annotations:1", "annotations:0", "annotations:2"][an]);
@@ -421,7 +429,18 @@ fn check_spec(spec: &Spec, key: &str, cx: &mut Cx) {
         }
     }
     // ---- B: proto -> raw -> proto
-    let msg = build_proto(spec);
+    let mut msg = build_proto(spec);
+    // a library that draws on the third layer also gets, in the message only, a rectangle on (13, 0): a purpose number
+    // the technology does not declare for that layer (whose drawing purpose is 20)
+    if spec.cells.iter().any(|c| c.layout.as_ref().map(|l| l.shapes.iter().any(|s| s.layer == 2)).unwrap_or(false)) {
+        if let Some(pl) = msg.cells.iter_mut().find_map(|c| c.layout.as_mut()) {
+            pl.shapes.push(proto::LayerShapes {
+                layer: Some(proto::Layer { number: 13, purpose: 0 }),
+                rectangles: vec![proto::Rectangle { net: "".into(), lower_left: Some(proto::Point { x: 500, y: 500 }), width: 7, height: 9 }],
+                ..Default::default()
+            });
+        }
+    }
     let has_abs = spec.cells.iter().any(|c| c.abs.is_some());
     // abstracts carry no purpose in the raw model: their round trip needs the technology's Layers
     let modes: &[bool] = if has_abs { &[true] } else { &[true, false] };
@@ -508,7 +527,7 @@ impl CaseDriver for C14 {
     fn describe(&self, tier: Tier) -> Describe {
         Describe {
             rule: format!(
-                "{} cells (or none at all) forming EVERY DAG (every subset of the edges i -> j, i < j, each edge an instance) listed in EVERY order; the last cell with layout / layout+abstract / abstract-only views or no view at all (a placeholder cell) (all free); costed (deviation bound {}): units Nano/Micro/Angstrom, abstract view on the other cells, each instance's orientation (8) and offset (incl. 2e9), a second placement with angle Some(0), the layout's shape set (default: 7 shapes of all three kinds with and without nets interleaved over 2 layers x 2 purposes; none; one rectangle; all on one layer/purpose with a reversed-corner rectangle; clockwise polygon + negative rectangle; rectangles given by every pair of opposite corners, a degenerate rectangle, an explicitly closed polygon and a path returning to its start; four-vertex polygons: an axis-parallel rectangle in both windings, a parallelogram, a right trapezoid), annotations 1/0/2, abstract ports 1/0/2 (second port on two layers) or one port over two layers holding each of the 9 pairs of shape kinds (rectangle, polygon, path), or three ports two of which share a net, blockages on 1/0/2 layers or the same 9 kind pairs, outline rectangle / L, layout and abstract views named differently from their cell. Each case is checked raw->proto->raw (fresh and original Layers) and proto->raw->proto (message built independently by the harness). Non-trivial = has an instance or an abstract.",
+                "{} cells (or none at all) forming EVERY DAG (every subset of the edges i -> j, i < j, each edge an instance) listed in EVERY order; the last cell with layout / layout+abstract / abstract-only views or no view at all (a placeholder cell) (all free); costed (deviation bound {}): units Nano/Micro/Angstrom, abstract view on the other cells, each instance's orientation (8) and offset (incl. 2e9), a second placement with angle Some(0), the layout's shape set (default: 7 shapes of all three kinds with and without nets interleaved over 2 layers x 2 purposes; none; one rectangle; all on one layer/purpose with a reversed-corner rectangle; clockwise polygon + negative rectangle; rectangles given by every pair of opposite corners, a degenerate rectangle, an explicitly closed polygon and a path returning to its start; four-vertex polygons: an axis-parallel rectangle in both windings, a parallelogram, a right trapezoid; shapes on a third layer whose purposes are numbered 20 / 256 / 300 / -5, the message additionally drawing on its undeclared purpose 0), annotations 1/0/2, abstract ports 1/0/2 (second port on two layers) or one port over two layers holding each of the 9 pairs of shape kinds (rectangle, polygon, path), or three ports two of which share a net, blockages on 1/0/2 layers or the same 9 kind pairs, outline rectangle / L, layout and abstract views named differently from their cell. Each case is checked raw->proto->raw (fresh and original Layers) and proto->raw->proto (message built independently by the harness). Non-trivial = has an instance or an abstract.",
                 if self.four { "4".to_string() } else { "1..3".to_string() },
                 self.bound(tier)
             ),
@@ -560,7 +579,7 @@ impl CaseDriver for C14 {
             stats,
             &[
                 "cells:0", "cells:1", "cells:2", "cells:3", "views:layout", "views:layout+abstract", "views:abstract", "views:none", "dag:shared-dependency", "dag:chain", "order:not-dependencies-first-or-last", "shapes:interleaved-all-kinds", "shapes:none", "shapes:one-layer-purpose",
-                "shapes:cw-polygon+negative-rect", "shapes:rects-by-every-corner-pair", "shapes:four-vertex-polygons", "annotations:0", "annotations:2", "ports:0", "ports:2-second-on-2-layers", "ports:kind-pair", "ports:two-on-one-net", "blockages:0", "blockages:2-layers", "blockages:kind-pair", "views:own-names", "inst:angle-Some(0)+second-placement",
+                "shapes:cw-polygon+negative-rect", "shapes:rects-by-every-corner-pair", "shapes:four-vertex-polygons", "shapes:unusual-purpose-numbers", "annotations:0", "annotations:2", "ports:0", "ports:2-second-on-2-layers", "ports:kind-pair", "ports:two-on-one-net", "blockages:0", "blockages:2-layers", "blockages:kind-pair", "views:own-names", "inst:angle-Some(0)+second-placement",
             ],
         )?;
         require_outcomes(stats, &["ok"])
